@@ -667,7 +667,7 @@ func TestC08(t *testing.T) {
 		}
 	}
 	utilities.Exhaustive("GetDayYi/Ji 60x60, GetTimeYi/Ji 60x60, GetDayJiShen/XiongSha 24x60, GetXun* 60, FotoUtil.GetXiu 24x30")
-	accessors.Rapid(ev.Share(ev.Pick(1600, 64000)), genObj)
+	accessors.Rapid(ev.Share(ev.Pick(1600, 32000)), genObj)
 	ev.Note("shard %d made %d reflective accessor calls", ev.Shard, calls)
 	if ev.Shard == 0 {
 		var ks []string
